@@ -229,6 +229,49 @@ def run_shard(spec, tier, seed):
                                   {"cell": f"{R.sysname(vsys)}|{ax}", "a": a_l.describe(), "gamma": mpmath.nstr(g, 17),
                                    "error_in_roundings_of_gamma_x_unit": mpmath.nstr(err, 6), "got": repr(got), "expected": repr(exp)})
                 res.cell("boostX(gamma=g) applies g at float64 accuracy", R.sysname(vsys), ax, mode.name)
+        # ------------------------------------------------------------------ a booster that is *stored with its mass*
+        # (any of the six tau systems) determines the boost to float64 accuracy however relativistic it is: the result of
+        # boost_p4 / boost / boostCM_of_p4 equals the 60-digit boost by the stored booster to a few hundred roundings of
+        # gamma x unit.  (Recomputing the mass from E**2 - p**2 loses gamma^2 roundings; this law is there to notice.)
+        if not mode.mp and not mild:
+            eps = mpf(2) ** -52
+            tausys = [s_ for s_ in R.SYSTEMS[4] if s_[2] == "tau"]
+            for k_ in range(2):
+                bsys = tausys[(di * 2 + k_) % len(tausys)]
+                g = mpf(10) ** gen.dyadic(r, 0.3, 6, bits=8)
+                d3, _ = gen.vec3(r, core=True)
+                m_ = gen.dyadic(r, 0.5, 2)
+                pm = m_ * mpmath.sqrt(g * g - 1) / d3.mag
+                try:
+                    p_l = mk(R.RV(d3.x * pm, d3.y * pm, d3.z * pm, m_ * g), bsys, k_ == 0)
+                except R.NotRepresentable:
+                    continue
+                ep = mode.exact(p_l)      # the vector the stored float64 coordinates denote
+                gam = ep.t / ep.tau
+                P = mode.vec(p_l)
+                ea = mode.exact(a_l)
+                for spelling, f, ref in (("boost_p4", lambda: A.boost_p4(P), lambda: R.op_boost_p4(ea, ep)),
+                                         ("boost", lambda: A.boost(P), lambda: R.op_boost_p4(ea, ep)),
+                                         ("boostCM_of_p4", lambda: A.boostCM_of_p4(P), lambda: R.op_boost_p4(ea, R.RV(-ep.x, -ep.y, -ep.z, ep.t)))):
+                    try:
+                        got, _gs = L.rv_of(f())
+                        exp = ref()
+                    except R.NotRepresentable:
+                        res.count("skip_result_not_representable")
+                        continue
+                    except Exception as e:
+                        res.violation(f"C09/exception-in-large-gamma-boost backend={mode.name}",
+                                      {"cell": f"{R.sysname(vsys)}|{spelling}|{R.sysname(bsys)}", "exc": repr(e)[:200], "gamma": mpmath.nstr(gam, 17)})
+                        continue
+                    res.evaluations += 1
+                    scale = gam * L.maxabs(ea)
+                    err = max(abs(p_ - q_) for p_, q_ in zip(got.comps(), exp.comps())) / (scale * eps)
+                    res.err(f"{mode.name}:boost by a mass-stored booster, error in roundings of gamma x unit", err)
+                    if not err <= 512:
+                        res.violation(f"C09/law-broken law=a mass-stored booster determines the boost at float64 accuracy backend={mode.name}",
+                                      {"cell": f"{R.sysname(vsys)}|{spelling}|{R.sysname(bsys)}", "a": a_l.describe(), "booster": p_l.describe(),
+                                       "gamma": mpmath.nstr(gam, 17), "error_in_roundings_of_gamma_x_unit": mpmath.nstr(err, 6)})
+                    res.cell("a mass-stored booster determines the boost at float64 accuracy", R.sysname(vsys), spelling, mode.name)
         if di == 0:
             res.sample({"vector": a_l.describe(), "second": b_l.describe(), "mode": mode.name, "label": alab,
                         "laws_checked_so_far": res.evaluations})
